@@ -14,6 +14,10 @@ theorem C06_fact_maxCell : Facts.strListEncodeMaxCell = some 65535 := by decide
 theorem C06_fact_offsetWide : Facts.strListOffsetWide = true := by decide
 theorem C06_fact_writeStringGuard : Facts.writeStringGuard = true := by decide
 theorem C06_fact_writeTimeGuard : Facts.writeTimeGuard = true := by decide
+/-- the decoders' pre-allocation cap only sizes slices; it never bounds a read loop (which would
+    silently truncate objects with more elements than the cap, e.g. tables of more than 4096 blocks) -/
+theorem C06_fact_preallocCapOnly : Facts.preallocCapNeverBoundsLoops = true := by decide
+
 theorem C06_fact_hdrBitsExact : Facts.hdrBitsExact = true := by decide
 
 /-- A row whose cells fit the 16-bit length prefix reads back equal, whatever its total size
